@@ -72,7 +72,7 @@ def obj_attr(ex, st, o, v, attr, node):
         raise Unsupported("attribute %s.%s" % (v.cls, attr))
     if not isinstance(fnode, ast.FunctionDef):
         # class attribute
-        return [(st, ex.lift(ast.literal_eval(fnode)))]
+        return [(st, class_attr_value(ex, st, fnode, m))]
     decos = [ast.unparse(d) for d in fnode.decorator_list]
     key = "%s::%s.%s" % (m.rel, ci.name, attr)
     if "property" in decos:
@@ -89,12 +89,29 @@ def class_attr(ex, st, c, attr):
     if fnode is None:
         raise Unsupported("class attribute %s.%s" % (c.name, attr))
     if not isinstance(fnode, ast.FunctionDef):
-        return [(st, ex.lift(ast.literal_eval(fnode)))]
+        return [(st, class_attr_value(ex, st, fnode, m))]
     decos = [ast.unparse(d) for d in fnode.decorator_list]
     key = "%s::%s.%s" % (m.rel, ci.name, attr)
     if "classmethod" in decos:
         return [(st, Func("repo", key, bound=c))]
     return [(st, Func("repo", key))]
+
+
+def class_attr_value(ex, st, expr, m):
+    """Value of a class-level assignment: literal, or evaluated in the defining module's scope
+    (e.g. `_required_dtypes = (str, int, int)`)."""
+    try:
+        return ex.lift(ast.literal_eval(expr))
+    except Exception:
+        pass
+    from .engine import State
+    fr = Frame("class::" + m.rel, m, None, None, None)
+    ex.frames.append(fr)
+    try:
+        s2 = State(pc=st.pc, heap=st.heap)
+        return ex.ev1(expr, s2)
+    finally:
+        ex.frames.pop()
 
 
 def obj_setattr(ex, st, o, v, attr, val, node):
@@ -204,8 +221,22 @@ def comprehension(ex, st, e, kind):
                                     nxt.append((s2, acc + [vv]))
                             else:
                                 nxt.append((s2, acc))
+                        elif any(c is False for c in cs):
+                            nxt.append((s2, acc))
                         else:
-                            raise Unsupported("comprehension filter on symbolic condition over a fixed-length sequence")
+                            # symbolic filter over a fixed-length sequence: path split
+                            cond = z3.And([_b(c) for c in cs if not isinstance(c, bool)])
+                            sT = s2.fork("c")
+                            sT.assume(cond)
+                            if ex.feasible(sT):
+                                if kind == "dict":
+                                    nxt.append((sT, acc + [(ex.ev1(e.key, sT), ex.ev1(e.value, sT))]))
+                                else:
+                                    nxt.append((sT, acc + [ex.ev1(e.elt, sT)]))
+                            sF = s2.fork("n")
+                            sF.assume(z3.Not(cond))
+                            if ex.feasible(sF):
+                                nxt.append((sF, acc))
                 cur = nxt
             for s1, acc in cur:
                 # the comprehension variable does not leak
@@ -372,3 +403,100 @@ def s_isdigit(ex, st, s, args, kwargs, node):
         return s.isdigit()
     used(ex, "str.isdigit = matches [0-9]+")
     return z3.InRe(s, z3.Plus(z3.Range("0", "9")))
+
+
+# =============================================================================== dict / list methods
+def dm(*names):
+    return method(DictV, *names)
+
+
+@dm("copy")
+def d_copy(ex, st, o, args, kwargs, node):
+    return st.alloc(DictV(st.get(o).d))
+
+
+@dm("get")
+def d_get(ex, st, o, args, kwargs, node):
+    d = st.get(o).d
+    k = st.get(args[0])
+    if not is_conc(k):
+        raise Unsupported("dict.get with symbolic key")
+    return d.get(k, args[1] if len(args) > 1 else None)
+
+
+@dm("items")
+def d_items(ex, st, o, args, kwargs, node):
+    return tuple((k, v) for k, v in st.get(o).d.items())
+
+
+@dm("keys")
+def d_keys(ex, st, o, args, kwargs, node):
+    return tuple(st.get(o).d)
+
+
+@dm("values")
+def d_values(ex, st, o, args, kwargs, node):
+    return tuple(st.get(o).d.values())
+
+
+@dm("update")
+def d_update(ex, st, o, args, kwargs, node):
+    d = dict(st.get(o).d)
+    if args:
+        other = st.get(args[0])
+        if not isinstance(other, DictV):
+            raise Unsupported("dict.update(%r)" % (other,))
+        d.update(other.d)
+    d.update(kwargs)
+    if not isinstance(o, Ref):
+        raise Unsupported("update of a non-heap dict")
+    st.put(o, DictV(d))
+    return None
+
+
+def lm(*names):
+    return method(ListV, *names)
+
+
+@lm("append")
+def l_append(ex, st, o, args, kwargs, node):
+    if not isinstance(o, Ref):
+        raise Unsupported("append to a non-heap list")
+    st.put(o, ListV(list(st.get(o).items) + [args[0]]))
+    return None
+
+
+@lm("extend")
+def l_extend(ex, st, o, args, kwargs, node):
+    v = st.get(args[0])
+    if not isinstance(v, (ListV, tuple)):
+        raise Unsupported("extend with symbolic sequence")
+    st.put(o, ListV(list(st.get(o).items) + list(v.items if isinstance(v, ListV) else v)))
+    return None
+
+
+@lm("remove")
+def l_remove(ex, st, o, args, kwargs, node):
+    items = list(st.get(o).items)
+    x = st.get(args[0])
+    if not is_conc(x) or not all(is_conc(i) for i in items):
+        raise Unsupported("list.remove with symbolic elements")
+    if x not in items:
+        raise Unsupported("list.remove of a missing element (ValueError)")
+    items.remove(x)
+    st.put(o, ListV(items))
+    return None
+
+
+@lm("copy")
+def l_copy(ex, st, o, args, kwargs, node):
+    return st.alloc(ListV(st.get(o).items))
+
+
+@lm("index")
+def l_index(ex, st, o, args, kwargs, node):
+    items = list(st.get(o).items)
+    x = st.get(args[0])
+    if is_conc(x) and all(is_conc(i) for i in items) and x in items:
+        return items.index(x)
+    raise Unsupported("list.index")
